@@ -84,7 +84,7 @@ pub fn scene(k: usize) -> Scene {
         }
         6 => {
             let mut s = base("s6 <&> ]]> \"'");
-            s.creation = Some(DateTime { gps: 1234567.875, atomic: true });
+            s.creation = Some(DateTime { gps: 0.1 + 0.2, atomic: true }); // 0.30000000000000004: 17 significant digits
             s.coordinate_metadata = Some("PROJCS[\"x\"] & <y>".into());
             let mut c = cloud("c0 ]]>", xyz(F32), 2, 10);
             c.meta = CloudMeta {
@@ -102,8 +102,8 @@ pub fn scene(k: usize) -> Scene {
                 humidity: Some(0.0),
                 pressure: Some(1e5),
                 pose: Some(Pose { rot: [0.5, 0.5, 0.5, 0.5], trans: [1.0, -2.0, 0.0] }),
-                acq_start: Some(DateTime { gps: 0.0, atomic: false }),
-                acq_end: Some(DateTime { gps: 1e9, atomic: true }),
+                acq_start: Some(DateTime { gps: 1.0 / 3.0, atomic: false }),
+                acq_end: Some(DateTime { gps: 3600.0000000001, atomic: true }),
                 cartesian_bounds: Some([Some(-1.0), Some(1.0), Some(0.0), None, Some(f64::MIN), Some(f64::MAX)]),
                 spherical_bounds: None,
                 index_bounds: Some([Some(0), Some(0), Some(-5), Some(i64::MAX), None, None]),
@@ -116,7 +116,7 @@ pub fn scene(k: usize) -> Scene {
             i.description = Some("d".into());
             i.pc_guid = Some("c0 ]]>".into());
             i.pose = Some(Pose::default());
-            i.acquisition = Some(DateTime { gps: 7.0, atomic: false });
+            i.acquisition = Some(DateTime { gps: 1400000000.1234567, atomic: false });
             i.sensor_vendor = Some("sv".into());
             i.sensor_model = Some("sm".into());
             i.sensor_serial = Some("ss".into());
